@@ -105,6 +105,13 @@ pub struct BigCase {
     /// collecting ring 0 nests `nest` collections inside each other
     #[serde(default)]
     pub nest: u16,
+    /// sole-holder sweep: the group's only outside handle is moved to every
+    /// member in turn (a stride of them for big groups) and, each time, a second
+    /// handle to object 0 is made and dropped again: a trace from object 0 (and
+    /// one from the previous holder) runs for every position of the sole outside
+    /// handle.  Nothing may ever be destroyed.
+    #[serde(default)]
+    pub sweep: bool,
 }
 
 pub fn sizes(c: &BigCase, tier: Tier) -> (usize, usize) {
@@ -223,7 +230,10 @@ pub const L_UNWRAP: u32 = 12;
 pub const L_HUB_EMPTIED: u32 = 13;
 pub const L_NESTED: u32 = 14;
 pub const L_NEST_GT64: u32 = 15;
-pub const NAMES: [&str; 16] = ["adopted_tail", "outside_handles_kept", "outside_weaks", "destructor_clones_peer", "doubly_linked", "group>128", "group>4096", "group>16", "tail>1000", "payload_without_drop_glue", "destructor_panics", "object_adopted_by_every_member", "unwrap_after_taking_back_without_unadopt", "hub_fully_unadopted_again", "nested_collections_chain", "nesting_depth>64"];
+pub const L_SWEEP: u32 = 16;
+pub const L_SWEEP_ALL: u32 = 17;
+pub const L_NEST_GT1024: u32 = 18;
+pub const NAMES: [&str; 19] = ["adopted_tail", "outside_handles_kept", "outside_weaks", "destructor_clones_peer", "doubly_linked", "group>128", "group>4096", "group>16", "tail>1000", "payload_without_drop_glue", "destructor_panics", "object_adopted_by_every_member", "unwrap_after_taking_back_without_unadopt", "hub_fully_unadopted_again", "nested_collections_chain", "nesting_depth>64", "sole_holder_sweep", "sole_holder_sweep_every_member", "nesting_depth>1024"];
 
 fn body(id: &str, c: &BigCase, tier: Tier) {
     let sh = shared();
@@ -239,7 +249,10 @@ fn body(id: &str, c: &BigCase, tier: Tier) {
         return body_hub_emptied(c, tier);
     }
     if c.nest > 0 {
-        return body_nested(c);
+        return body_nested(c, tier);
+    }
+    if c.sweep {
+        return body_sweep(c, tier);
     }
     let mut b = unsafe { build(c, n, m) };
     sh.counters[20] = total as u64;
@@ -661,15 +674,19 @@ fn body_nodrop(_id: &str, c: &BigCase, tier: Tier) {
 /// of ring i+1.  Dropping the program's handle to a_0 collects ring 0, whose
 /// values drop the handle to ring 1, and so on: `nest` collections nested inside
 /// each other.  Everything must be destroyed before the outermost drop returns.
-fn body_nested(c: &BigCase) {
+fn body_nested(c: &BigCase, _tier: Tier) {
     let sh = shared();
     let k = c.nest as usize;
     sh.counters[20] = 2 * k as u64;
-    sh.labels = (1 << L_NESTED) | (1 << L_GT16) | if k > 64 { 1 << L_NEST_GT64 } else { 0 };
+    sh.labels = (1 << L_NESTED) | (1 << L_GT16) | if k > 64 { 1 << L_NEST_GT64 } else { 0 } | if k > 1024 { 1 << L_NEST_GT1024 } else { 0 };
     DESTROYED.store(0, Ordering::Relaxed);
     let mk = |id: usize| {
-        Rc::new(BNode { pad: [id as u64; 136], id: id as u32, canary: CANARY ^ id as u64, clone_on_drop: Cell::new(false), next: RefCell::new(Vec::with_capacity(3)) })
+        Rc::new(BNode { pad: [id as u64; 136], id: id as u32, canary: CANARY ^ id as u64, clone_on_drop: Cell::new(false), next: RefCell::new(Vec::with_capacity(4)) })
     };
+    // an adoption-free bystander: every ring holds one plain handle to it (C06:
+    // handles released by destructors deep inside nested collections are
+    // released exactly once)
+    let probe = mk(usize::MAX >> 40);
     // build from the innermost ring outwards
     let mut inner: Option<Rc<BNode>> = None;
     let mut weaks: Vec<Weak<BNode>> = vec![];
@@ -688,6 +705,7 @@ fn body_nested(c: &BigCase) {
             // plain handle, not adopted
             b.next.borrow_mut().push(h);
         }
+        b.next.borrow_mut().push(Rc::clone(&probe));
         if c.weaks.len() > i % 4 {
             weaks.push(Rc::downgrade(&b));
         }
@@ -695,14 +713,17 @@ fn body_nested(c: &BigCase) {
         inner = Some(a);
     }
     let h0 = inner.take().unwrap();
+    if Rc::strong_count(&probe) != k + 1 {
+        violate_soft(View::Count, &format!("bystander object: strong_count={} but {} handles exist", Rc::strong_count(&probe), k + 1));
+    }
     exec::set_msg(&format!("drop of the only outside handle of the first of {} chained two-member rings ({} nested collections)", k, k));
     sh.op = 1;
     sh.phase = Phase::Lib as u32;
     // nesting is recursion by nature (as with any chain of owned values): a
-    // normal 8 MiB stack is used here
+    // stack proportional to the depth is provided
     let b = std::sync::Mutex::new(SendBox(Some(h0)));
     let t = std::thread::Builder::new()
-        .stack_size(8 * 1024 * 1024)
+        .stack_size(8 * 1024 * 1024 + k * 16 * 1024)
         .spawn(move || {
             let h = b.lock().unwrap().0.take();
             drop(h);
@@ -720,11 +741,138 @@ fn body_nested(c: &BigCase) {
             &format!("{} chained two-member rings: the drop of the only outside handle destroyed {} of {} objects (ring {} and the rings behind it were orphaned by a destructor running inside {} nested collections and never collected)", k, d, 2 * k, d / 2, d / 2),
         );
     }
+    // every destroyed ring released its handle to the bystander exactly once
+    let want = 1 + (2 * k - d.min(2 * k)) / 2;
+    let got = Rc::strong_count(&probe);
+    if got != want {
+        violate_soft(
+            View::Count,
+            &format!("bystander object after {} nested collections: strong_count={} but {} handle(s) exist ({} of {} ring members were destroyed, each destroyed ring held one)", k, got, want, d, 2 * k),
+        );
+    }
+    if probe.canary != CANARY ^ (usize::MAX >> 40) as u64 {
+        violate(View::Premature, "bystander object no longer yields its value");
+    }
     for w in &weaks {
         if d == 2 * k && (w.upgrade().is_some() || w.strong_count() != 0) {
             violate_soft(View::Weak, "Weak to a member of a collected nested ring still reports it alive");
         }
     }
+    drop(probe);
+}
+
+/// Sole-holder sweep (C01 / C06 / C09): see `BigCase::sweep`.
+fn body_sweep(c: &BigCase, tier: Tier) {
+    let sh = shared();
+    let cap: f64 = if tier == Tier::Thorough { 3000.0 } else { 700.0 };
+    let f = c.size as f64 / 65535.0;
+    let n = ((3.0f64.ln() + f * (cap.ln() - 3.0f64.ln())).exp().round() as usize).max(3);
+    let m = if c.tail < 0x6000 { 0 } else { ((c.tail as usize - 0x6000) * n) / (4 * 0xA000) };
+    let total = n + m;
+    let mut b = unsafe { build(c, n, m) };
+    sh.counters[20] = total as u64;
+    sh.counters[22] = b.adoptions as u64;
+    DESTROYED.store(0, Ordering::Relaxed);
+    let budget: usize = if tier == Tier::Thorough { 8_000_000 } else { 2_000_000 };
+    let per = 2 * (total + b.adoptions);
+    let positions = n.min((budget / per).max(8));
+    let mut l = (1u64 << L_SWEEP) | if positions == n { 1 << L_SWEEP_ALL } else { 0 };
+    if m > 0 {
+        l |= 1 << L_TAIL;
+    }
+    if c.double {
+        l |= 1 << L_DOUBLE;
+    }
+    if c.sink {
+        l |= 1 << L_SINK;
+    }
+    if total > 16 {
+        l |= 1 << L_GT16;
+    }
+    if total > 128 {
+        l |= 1 << L_GT128;
+    }
+    sh.labels = l | (1 << L_KEEP);
+    let h0 = *b.h0.take().unwrap();
+    let w0 = Rc::downgrade(&h0);
+    let mut hold = h0;
+    let mut hold_at = 0usize;
+    let start = c.order as usize % n;
+    let check_counters = |what: &str| {
+        let cn = cactusref::__verif::counters();
+        if cn[2] > 8 * total + 8 || cn[1] > 8 * (total + b.adoptions) + 8 {
+            violate_soft(View::Scale, &format!("{}: tracing a group of {} objects / {} adoptions scanned {} tables and popped {} items over {} trace(s)", what, total, b.adoptions, cn[2], cn[1], cn[0]));
+        }
+    };
+    for k in 0..positions {
+        // positions == n: every ring member; else an even spread from `start`
+        let j = (start + k * n / positions) % n;
+        sh.op = 1 + k as u32;
+        let nb = if j == 0 {
+            match w0.upgrade() {
+                Some(h) => h,
+                None => violate(View::Weak, "Weak::upgrade returned None for object 0 of a group that is still held"),
+            }
+        } else {
+            Rc::clone(unsafe { &*b.slot[j] })
+        };
+        let old = std::mem::replace(&mut hold, nb);
+        exec::set_msg(&format!("ring of {} + tail of {} ({} adoptions): the only outside handle is on object {}; the handle on object {} is dropped", n, m, b.adoptions, j, hold_at));
+        cactusref::__verif::reset();
+        if !drop_small_stack(old) {
+            violate(View::LibPanic, "the drop panicked");
+        }
+        let d = DESTROYED.load(Ordering::Relaxed);
+        if d != 0 {
+            violate(View::Premature, &format!("ring of {} + tail of {}: {} objects were destroyed by dropping a handle to object {} although a handle to object {} is still held", n, m, d, hold_at, j));
+        }
+        check_counters("drop of an outside handle");
+        hold_at = j;
+        // a second handle to object 0, dropped again: a trace from object 0
+        // with the sole other outside handle on object j
+        let a = match w0.upgrade() {
+            Some(h) => h,
+            None => violate(View::Weak, "Weak::upgrade returned None for object 0 of a group that is still held"),
+        };
+        exec::set_msg(&format!("ring of {} + tail of {} ({} adoptions): the only other outside handle is on object {}; a second handle to object 0 is dropped", n, m, b.adoptions, j));
+        cactusref::__verif::reset();
+        if !drop_small_stack(a) {
+            violate(View::LibPanic, "the drop panicked");
+        }
+        let d = DESTROYED.load(Ordering::Relaxed);
+        if d != 0 {
+            violate(View::Premature, &format!("ring of {} + tail of {}: {} objects were destroyed by dropping a handle to object 0 although a handle to object {} is still held", n, m, d, j));
+        }
+        check_counters("drop of a second handle to object 0");
+        sh.phase = Phase::HeldDeref as u32;
+        let ok = hold.id as usize == j && hold.canary == CANARY ^ j as u64;
+        sh.phase = 0;
+        if !ok {
+            violate(View::Premature, &format!("held handle to object {} no longer yields the original value", j));
+        }
+        let want = b.indeg[j] as usize + 1;
+        let got = Rc::strong_count(&hold);
+        if got != want {
+            violate_soft(View::Count, &format!("object {} of a group of {}: strong_count={} but {} handles exist", j, total, got, want));
+        }
+    }
+    sh.counters[21] = positions as u64;
+    exec::set_msg(&format!("ring of {} + tail of {}: the last outside handle (on object {}) is dropped", n, m, hold_at));
+    sh.op = 1_000_000;
+    if !drop_small_stack(hold) {
+        violate(View::LibPanic, "the drop panicked");
+    }
+    let d = DESTROYED.load(Ordering::Relaxed);
+    if d != total {
+        violate_soft(View::Orphan, &format!("ring of {} with an adopted tail of {}: every outside handle dropped, the group is orphaned, but only {} of {} objects were destroyed", n, m, d, total));
+    }
+    sh.counters[27] = d as u64 + 1;
+    if d == total && (w0.upgrade().is_some() || w0.strong_count() != 0) {
+        violate_soft(View::Weak, "Weak to object 0 of a collected group still reports it alive");
+    }
+    sh.phase = Phase::WeakCall as u32;
+    drop(w0);
+    sh.phase = 0;
 }
 
 /// C14 at scale: a hub that adopted N distinct objects and unadopted all of
@@ -830,7 +978,14 @@ impl Kind for BigKind {
         let sink_from: u8 = if id == "C09" { 5 } else { 8 };
         let nest_pct: u32 = match id {
             "C10" => 70,
-            "C03" => 15,
+            "C03" | "C06" => 15,
+            _ => 0,
+        };
+        let sweep_pct: u32 = match id {
+            "C01" => 35,
+            "C09" => 25,
+            "C06" => 20,
+            "C03" => 10,
             _ => 0,
         };
         let panic_pct: u32 = match id {
@@ -872,7 +1027,9 @@ impl Kind for BigKind {
                 clone_at: if cp < clone_pct { Some(cn) } else { None },
                 order,
                 panic_at: if (cn >> 8) % 100 < panic_pct { Some(cn >> 16) } else { None },
-                nest: if (order >> 3) as u32 % 100 < nest_pct { 2 + (cn % 240) as u16 } else { 0 },
+                // one in four chains is deep (up to 4000 nested collections)
+                nest: if (order >> 3) as u32 % 100 < nest_pct { 2 + if (cn >> 12) % 4 == 0 { (cn >> 14) % 4000 } else { cn % 240 } as u16 } else { 0 },
+                sweep: (cn >> 4) % 100 < sweep_pct,
                 sink: dbl >= sink_from,
                 unwrap_probe: unwrap_probe && order & 1 == 1,
                 nodrop: (order >> 8) as u32 % 100 < nodrop_pct,
